@@ -570,15 +570,36 @@ func (e *Exec) contOf(l *loop, ind *ssa.Phi, nx *ssa.Next) (Term, bool) {
 // be changed element-wise, so its length, offset and nil-ness are kept.
 // havocCellW: when the loop only writes elements, the fresh content keeps every slice length of the old one.
 func (e *Exec) havocCellW(c *cell, elemOnly bool) Term {
-	t := e.havocCell(c)
 	if !elemOnly || c.kind == "slice" {
-		return t
+		return e.havocCell(c)
 	}
-	old := e.cellGet(c)
-	for _, eq := range e.sameLens(old, t, c.typ, 0) {
-		e.assume(eq)
+	// only slice elements are written: every scalar field and every slice length is kept
+	return e.def("lh_"+c.name+"_k", e.g.sortOf(c.typ), e.keepShape(e.cellGet(c), c.typ, c.name, 0))
+}
+
+func (e *Exec) keepShape(old Term, t types.Type, name string, depth int) Term {
+	switch tt := t.Underlying().(type) {
+	case *types.Slice:
+		s := e.g.sortOf(t)
+		arr := e.havoc("lh_"+name+"_arr", "(Array Int "+e.g.sortOf(tt.Elem())+")", true)
+		return fmt.Sprintf("(mk_%s (nil_%s %s) %s (off_%s %s) (len_%s %s))", s, s, old, arr, s, old, s, old)
+	case *types.Struct:
+		if depth > 3 {
+			return e.havoc("lh_"+name, e.g.sortOf(t), true)
+		}
+		_, nt := structOf(t)
+		s := e.g.sortOf(nt)
+		if tt.NumFields() == 0 {
+			return old
+		}
+		var fs []string
+		for i := 0; i < tt.NumFields(); i++ {
+			acc := "(" + e.g.fieldAcc(s, tt.Field(i).Name()) + " " + old + ")"
+			fs = append(fs, e.keepShape(acc, tt.Field(i).Type(), name+"_"+tt.Field(i).Name(), depth+1))
+		}
+		return "(mk_" + s + " " + strings.Join(fs, " ") + ")"
 	}
-	return t
+	return old
 }
 
 // sameLens: equalities between the lengths (and nil-ness, offsets) of all slices reachable through struct fields.
